@@ -212,6 +212,11 @@ func (s *Sim) RunQueryScript(b *WB, c *Compiled, o *Op) (fd *Finding) {
 			case "close":
 				q.Close()
 				open = false
+			case "at!neg", "at!count", "step!0", "step!neg":
+				if fd = illegalQueryCalls(b, &q, []QStep{st}, len(ref), what); fd != nil {
+					return
+				}
+				s.label("illegal query call: " + st.K)
 			}
 		}
 		if open {
@@ -230,4 +235,31 @@ func (s *Sim) RunQueryScript(b *WB, c *Compiled, o *Op) (fd *Finding) {
 		return finding(cat, "%s: %s panicked: %v (script %v)", b.Name, what, p, o.Script)
 	}
 	return fd
+}
+
+// illegalQueryCalls performs the out-of-range calls listed in steps on an open query: each must
+// panic, and the query must stay open (the world locked) afterwards. Other step kinds are skipped.
+func illegalQueryCalls(b *WB, q *ecs.Query, steps []QStep, count int, what string) *Finding {
+	for _, st := range steps {
+		var p any
+		switch st.K {
+		case "at!neg":
+			p = Call(func() { q.EntityAt(-1 - st.N%3) })
+		case "at!count":
+			p = Call(func() { q.EntityAt(count + st.N%3) })
+		case "step!0":
+			p = Call(func() { q.Step(0) })
+		case "step!neg":
+			p = Call(func() { q.Step(-1 - st.N%3) })
+		default:
+			continue
+		}
+		if p == nil {
+			return finding(CatIllegal, "%s: %s: out-of-range call %s did not panic (count %d)", b.Name, what, st.K, count)
+		}
+		if !b.W.IsLocked() {
+			return finding(CatIllegal, "%s: %s: rejected call %s released the query's lock", b.Name, what, st.K)
+		}
+	}
+	return nil
 }
